@@ -45,6 +45,16 @@ CLAIMED = {
  "C09": ("proof", "6/C09", "find_links is verified against the membership predicate `qual` of the statement (result set = {l in links(a) : joins a,b and qualifies}); "
          "the agreement with neighbors() is proved pointwise per link (qualifies <=> contributes [b]) and lifted to sizes by the Lean counting lemma; "
          "'empty after unlink, other pairs untouched' is a lemma over unlink's contract."),
+ "C11": ("proof", "12.5/C11", "load_adj_dict is verified (both nested loops, all paths) against a contract that gives the whole post-heap: the result is a "
+         "new universe whose members are Dedup(mention order) (each key, then its row), every mentioned vertex gets exactly that one more universe, "
+         "and there is a ghost sequence C of created links (creation order) - distinct, new (nothing that existed refers to them), of exactly the "
+         "requested class, in no universe - with map(first end, C) = the keys repeated once per entry of their rows and map(second end, C) = the "
+         "concatenated rows, i.e. exactly one link per listed pair, key -> value, in input order; every vertex's link list is its old list followed by "
+         "the links of C incident to it in creation order; ends of pre-existing links, universes of unmentioned objects, uids and attributes "
+         "of old objects are unchanged. Reading back through neighbors()/find_links is then their own contracts (C04/C09) applied to this heap. "
+         "load_adj_matrix is NOT verified (nested lists of truthy cells, integer indexing): TRUSTED registration only + bounded stand-in on every "
+         "run (explorer op adj_matrix: random square / non-square matrices and wrong side arrays, ValueError-before-touching compared on the "
+         "observable state), labelled bounded and not counted as proved."),
  "C12": ("proof", "6/C12", "(1) ownership discipline of the private containers, checked syntactically on every occurrence in the tree; (2) every read "
          "accessor / query is verified against a contract whose result is a tuple value or a container allocated by the call (Vertex.links, "
          "Link.vertices, Universe.vertices, BaseObject.universes, neighbors() - separate lists for the caller and for the memo -, find_links, "
